@@ -91,52 +91,47 @@ struct verif_atomic_alias {
   bool is_lock_free() const noexcept { return a.is_lock_free(); }
 
   T load(memory_order mo = memory_order_seq_cst) const noexcept {
-    verif::point(&a, verif::K_LOAD, (int)mo);
+    verif::OpScope s(&a, verif::K_LOAD, (int)mo, false);
     return a.load(mo);
   }
   void store(T v, memory_order mo = memory_order_seq_cst) noexcept {
-    verif::point(&a, verif::K_STORE, (int)mo);
+    verif::OpScope s(&a, verif::K_STORE, (int)mo, true);
     a.store(v, mo);
-    verif::wrote(&a);
   }
   T exchange(T v, memory_order mo = memory_order_seq_cst) noexcept {
-    verif::point(&a, verif::K_RMW, (int)mo);
-    T r = a.exchange(v, mo);
-    verif::wrote(&a);
-    return r;
+    verif::OpScope s(&a, verif::K_RMW, (int)mo, true);
+    return a.exchange(v, mo);
   }
   bool compare_exchange_weak(T& e, T d, memory_order s, memory_order f) noexcept {
-    verif::point(&a, verif::K_RMW, (int)s);
-    bool r = a.compare_exchange_strong(e, d, s, f); // no spurious failures: failures are explored via schedules
-    if (r) verif::wrote(&a);
+    verif::OpScope sc(&a, verif::K_RMW, (int)s, true);   // (no spurious failures: failures are explored via schedules)
+    bool r = a.compare_exchange_strong(e, d, s, f);
+    if (!r) sc.failed((int)f);
     return r;
   }
   bool compare_exchange_weak(T& e, T d, memory_order mo = memory_order_seq_cst) noexcept {
-    verif::point(&a, verif::K_RMW, (int)mo);
+    verif::OpScope sc(&a, verif::K_RMW, (int)mo, true);
     bool r = a.compare_exchange_strong(e, d, mo);
-    if (r) verif::wrote(&a);
+    if (!r) sc.failed(mo == memory_order_acq_rel ? (int)memory_order_acquire : (mo == memory_order_release ? (int)memory_order_relaxed : (int)mo));
     return r;
   }
   bool compare_exchange_strong(T& e, T d, memory_order s, memory_order f) noexcept {
-    verif::point(&a, verif::K_RMW, (int)s);
+    verif::OpScope sc(&a, verif::K_RMW, (int)s, true);   // (no spurious failures: failures are explored via schedules)
     bool r = a.compare_exchange_strong(e, d, s, f);
-    if (r) verif::wrote(&a);
+    if (!r) sc.failed((int)f);
     return r;
   }
   bool compare_exchange_strong(T& e, T d, memory_order mo = memory_order_seq_cst) noexcept {
-    verif::point(&a, verif::K_RMW, (int)mo);
+    verif::OpScope sc(&a, verif::K_RMW, (int)mo, true);
     bool r = a.compare_exchange_strong(e, d, mo);
-    if (r) verif::wrote(&a);
+    if (!r) sc.failed(mo == memory_order_acq_rel ? (int)memory_order_acquire : (mo == memory_order_release ? (int)memory_order_relaxed : (int)mo));
     return r;
   }
 #define VERIF_RMW(NAME)                                                                        \
   template <class U, class A = std::atomic<T>>                                                 \
   auto NAME(U v, memory_order mo = memory_order_seq_cst) noexcept                              \
       -> decltype(std::declval<A&>().NAME(v, mo)) {                                            \
-    verif::point(&a, verif::K_RMW, (int)mo);                                                   \
-    auto r = a.NAME(v, mo);                                                                    \
-    verif::wrote(&a);                                                                          \
-    return r;                                                                                  \
+    verif::OpScope sc(&a, verif::K_RMW, (int)mo, true);                                        \
+    return a.NAME(v, mo);                                                                      \
   }
   VERIF_RMW(fetch_add) VERIF_RMW(fetch_sub) VERIF_RMW(fetch_or) VERIF_RMW(fetch_and) VERIF_RMW(fetch_xor)
 #undef VERIF_RMW
@@ -162,25 +157,24 @@ public:
   void lock() {
     if (verif::in_region()) {
       while (true) {
-        verif::point(this, verif::K_LOCK, 2);
-        if (real.try_lock()) { verif::wrote(this); return; }
+        verif::point(this, verif::K_YIELD, 2);
+        if (real.try_lock()) { verif::OpScope s(this, verif::K_LOCK, 2, true); return; }
         verif::point(this, verif::K_SPIN, 0);
       }
     } else {
-      verif::point(this, verif::K_LOCK, 2);
       real.lock();
+      verif::OpScope s(this, verif::K_LOCK, 2, false);   // logged once the mutex is held
     }
   }
   bool try_lock() {
-    verif::point(this, verif::K_LOCK, 2);
+    if (verif::in_region()) verif::point(this, verif::K_LOCK, 2);
     bool r = real.try_lock();
-    if (r) verif::wrote(this);
+    if (r) { verif::OpScope s(this, verif::K_LOCK, 2, true); }
     return r;
   }
   void unlock() {
-    verif::point(this, verif::K_UNLOCK, 3);
+    verif::OpScope s(this, verif::K_UNLOCK, 3, true);     // logged before the mutex is given up
     real.unlock();
-    verif::wrote(this);
   }
 };
 
